@@ -7,9 +7,9 @@ which operation the 2 274-line validator performs where, hence acceptance and te
 modelled — acceptance of every generated well-formed stream and termination on arbitrary bytes are
 checked by the correspondence only.
 -/
-import SuccinctlyVerif.Proof.YamlPos
+import SuccinctlyVerif.Proof.YamlValPos
 namespace SV.Props.C18
-open SV SV.YamlPos
+open SV SV.YamlVPos
 
 /-- `error_linecol`: whatever sequence of cursor movements the validator performs before it
 constructs an error (`Validator::error` reports the cursor), as long as per-byte steps are taken on
